@@ -164,8 +164,10 @@ pub fn c28(out: &mut Out, ex: &mut Exec, seed: u64, thorough: bool) {
             out.hist.hit(l.split(' ').nth(1).unwrap_or(""));
             let q = if rng.chance(1, 3) { "sim obs take" } else { "sim obs peek" };
             let r2 = ex.line(q); out.op(q, &r2); all.push(q.into());
-            if r2.contains(":6") || r2.contains(":7") { out.hist.hit("modified_seen"); }
-            if r2.contains(":4") || r2.contains(":5") { out.fail(out.lines, format!("observer reports modified without written: {r2}"), all.join("\n")); }
+            // a long observer listing is printed as a digest `#<count>:<hash>`: no flags to inspect there
+            let listing = !r2.starts_with('#');
+            if listing && (r2.contains(":6") || r2.contains(":7")) { out.hist.hit("modified_seen"); }
+            if listing && (r2.contains(":4") || r2.contains(":5")) { out.fail(out.lines, format!("observer reports modified without written: {r2}"), all.join("\n")); }
             if !r.starts_with("ok") && !l.contains("host") { break; }
         }
         if seen.insert(crate::simx::fnv(all.iter().flat_map(|l| l.bytes().map(|b| b as u64)))) { out.nontrivial += 1; }
